@@ -264,6 +264,14 @@ def run(ctx):
     proofs_ok, detail = vplib.check_proofs(ctx)
     ctx.log("proofs:", proofs_ok, detail[:200])
     rng = ctx.rng
+    stress = []
+    if not proofs_ok:
+        # a proof obligation no longer checks: search for a failing input around the theorems' witnesses -- here the
+        # pipelines that exhibited finding F12 (C14_every_request_relayed depends on the regenerated constant
+        # upstream_waits_ready); being a race it needs many runs
+        import json
+        sc = json.load(open(os.path.join(vplib.VERIF, "corpus", "C14", "f12_not_ready.json")))
+        stress = [dict(sc, name="F12 witness, run %d" % i) for i in range(300)]
     want = 300 if ctx.quick else 20000
     scenarios, plan = [], []        # plan[s] = [[exchange per request] per connection]
     total = 0
@@ -295,6 +303,15 @@ def run(ctx):
     ctx.log("e2e: %d scenarios, %d exchanges" % (len(scenarios), total))
 
     disagreements, failures = [], []
+    if stress:
+        for sc, r in zip(stress, e2e.run_scenarios(ctx, stress, timeout=1800, shards=4)):
+            bad = [(cn.get("id"), i) for cn in r.get("connections", []) for i, x in enumerate(cn["responses"])
+                   if i > 0 and x.get("status") == 503 and b"x-reply-tag" not in x["raw"]]
+            if bad:
+                failures.append({"case": {"scenario": sc, "connection": bad[0][0], "index": bad[0][1]}, "why": F12_WHAT,
+                                 "impl": e2e.statuses(r)})
+                break
+        ctx.log("search after the broken proof obligation: %d runs of the F12 witness, %d failing" % (len(stress), len(failures)))
     req_exprs, req_meta, resp_exprs, resp_meta = [], [], [], []
     n_pipelined = n_conn = 0
     n_f12 = [0]
